@@ -131,7 +131,7 @@ def _validate_shard(wd, name, jobs, uniq, mult, max_rejections=3):
             for e in jobs[i].events:
                 events.append(e); ev_job.append(i)
         acc, consumed, r = tracecheck.validate("SortedSetAbsTrace", events, wd, "%s_%d" % (name, rnd), constants=THREADS, timeout=2400,
-                                               heap="6g")
+                                               heap="4g")
         rnd += 1
         if acc is None:
             infra.append("trace validation (%s) failed to run: %s" % (name, str(r["error"])[-800:])); break
